@@ -81,7 +81,9 @@ def check_pdu(ctx, v):
         prim = R.to_primitive(can)
     except (ValueError, TypeError):
         prim = None
-        ctx.cls("api-rejected-primitive")
+        ctx.cls("api-rejected-primitive", "api-rejected:" + kind)
+        if kind in ("PData", "ReleaseRQ", "ReleaseRP", "Abort", "AssocRJ"):
+            raise HarnessError(f"bridge cannot build a primitive for {v}")
     if prim is not None:
         try:
             pdu_a = cls()
@@ -90,7 +92,7 @@ def check_pdu(ctx, v):
         except Exception as e:
             if isinstance(e, ValueError) and sig.exc_key(e).endswith("@pdu_primitives.from_primitive"):
                 # the primitive's own validation refuses the value (explicit raise in <primitive>.from_primitive)
-                ctx.cls("api-rejected-primitive")
+                ctx.cls("api-rejected-primitive", "api-rejected:" + kind)
                 pdu_a = None
                 got = None
             else:
